@@ -994,6 +994,31 @@ def _o_order(stats, case):
     return out
 
 
+def _o_orderbig(stats, item):
+    """order_stats('c') for sample sizes at and beyond the 32-bit integer limits (n = 2**31 - 1 ... 1e12), small ranks and
+    1 - p of the order of 1/n: against the binomial tail summed in log space (the r leading terms; exact to ~1e-12)"""
+    n, r, lam = item["n"], item["r"], item["lam"]
+    q = lam / n
+    out = []
+    tot = 0.0
+    for k in range(r):
+        lc = sum(math.log(n - j) for j in range(k)) - math.lgamma(k + 1)
+        tot += math.exp(lc + k * math.log(q) + (n - k) * math.log1p(-q))
+    want = 1.0 - tot
+    for form, nn in (("int", n), ("float", float(n)), ("array", np.array([n]))):
+        v = _call(stats.order_stats, "c", p=1.0 - q, n=nn, r=r)
+        try:
+            val = float(np.asarray(v).ravel()[0])
+        except Exception:  # noqa: BLE001
+            val = float("nan")
+        if isinstance(v, str) or not abs(val - want) <= 1e-7:
+            out.append({"family": "order-stats-c-not-binomial-tail-huge-n", "what": "order_stats('c') with n = %d (%s) is not the "
+                        "binomial tail P(X >= r), X ~ Binomial(n, 1-p)" % (n, form), "input": dict(item, form=form),
+                        "observed": v if isinstance(v, str) else val, "required": want})
+            break
+    return out
+
+
 def _o_consistency(stats, p, c, n):
     """'r' -> 'n' -> 'c' -> 'p' round trips and scalar == broadcast"""
     out = []
@@ -1522,6 +1547,8 @@ def _run_oracle(stats, item, rng=None):
     kind = item["kind"]
     if kind == "order":
         return _o_order(stats, (item["which"], item["p"], item["c"], item["n"], item["r"]))
+    if kind == "orderbig":
+        return _o_orderbig(stats, item)
     if kind == "consistency":
         return _o_consistency(stats, item["p"], item["c"], item["n"])
     if kind == "kfactor":
@@ -1588,6 +1615,9 @@ def search(ctx, hints):
         items.append({"kind": "order", "which": cs[0], "p": cs[1], "c": cs[2], "n": cs[3], "r": cs[4]})
     for _ in range(ctx.pick(400, 1500)):
         items.append({"kind": "consistency", "p": _dec(rng, "p"), "c": _dec(rng, "c"), "n": rng.randint(1, 600)})
+    for n in (2 ** 31 - 1, 2 ** 31, 2 ** 31 + 5, 2 ** 32 - 1, 2 ** 32, 2 ** 32 + 700, 10 ** 10, 10 ** 12, 3 * 10 ** 8):
+        for _ in range(ctx.pick(1, 4)):
+            items.append({"kind": "orderbig", "n": n, "r": rng.randint(1, 8), "lam": rng.choice([0.5, 1.0, 3.0, 6.5])})
     for p, c, n in _gen_k(ctx, ctx.pick(200, 2000)):
         items.append({"kind": "kfactor", "p": p, "c": c, "n": n})
     for n in [2, 3, 5, 10, 21, 50, 200, 1000001, 3000000] + [rng.randint(2, 500) for _ in range(ctx.pick(4, 40))] \
